@@ -743,6 +743,8 @@ func (v *v40) fingerprint() string {
 		v.r.Count("probes", 1)
 		return p.res, 0, true
 	}))
+	sb.WriteString(countsMarker)
+	sb.WriteString(v.stateCounts())
 	return sb.String()
 }
 
@@ -815,7 +817,11 @@ func (v *v40) rejected(what string, h *retx, alt *op40, cacheSurvives bool, deta
 		v.violate(fmt.Sprintf("C19 %s-got-cached-reply v=4.0 op=%s cached=%s", what, alt.kind, h.op.kind),
 			fmt.Sprintf("%s: %s was answered with the cached reply of %s", detail, alt, h.op), nil)
 	}
-	if before != after {
+	// A request whose open-owner seqid is in order legitimately starts a
+	// new open-owner transaction (dropping the previous cached reply and
+	// a closed state ID) even if it is then refused by the lock-owner's
+	// sequencing: the table counts are not compared in that case.
+	if !sameState(before, after, cacheSurvives) {
 		v.violate(fmt.Sprintf("C19 %s-side-effect v=4.0 op=%s", what, alt.kind),
 			fmt.Sprintf("%s: %s was rejected with %s but changed observable state", detail, alt, statusName(st)),
 			map[string]any{"before": before, "after": after})
